@@ -429,9 +429,9 @@ impl<H: Helper> State<'_, '_, H> {
         anchor: Anchor,
         n: RepeatCount,
     ) -> Result<()> {
-        let mut moved = false;
+        let pos = self.line.pos();
         if let Anchor::After = anchor {
-            moved = self.line.move_forward(1);
+            self.line.move_forward(1);
         }
         if self.line.yank(text, n, &mut self.changes).is_some() {
             if !input_state.is_emacs_mode() {
@@ -439,10 +439,9 @@ impl<H: Helper> State<'_, '_, H> {
             }
             self.refresh_line()
         } else {
-            if moved {
-                // nothing was pasted: the cursor must not move (nobody repaints)
-                self.line.move_backward(1);
-            }
+            // nothing was pasted: the cursor goes back where it was (nobody repaints); stepping back
+            // one cluster is not the inverse of the step forward when the cursor stood inside a cluster
+            self.line.set_pos(pos);
             Ok(())
         }
     }
